@@ -427,9 +427,11 @@ def _conc_scenarios(rng, n, gc):
             else:
                 th.append(("T%d" % i, "%s %s" % (kind, k)))
         if gc:
-            th.append(("G1", rng.choice(("pgc %d" % rng.randint(20, 90), "igc 1", "igc 0"))))
+            # one cycle of each collector at most: the store runs one goroutine per collector
+            g1 = rng.choice(("pgc %d" % rng.randint(20, 90), "igc 1", "igc 0"))
+            th.append(("G1", g1))
             if rng.random() < 0.4:
-                th.append(("G2", rng.choice(("pgc %d" % rng.randint(20, 90), "igc 1"))))
+                th.append(("G2", "igc %d" % rng.randint(0, 1) if g1.startswith("pgc") else "pgc %d" % rng.randint(20, 90)))
             if rng.random() < 0.6 and not any(t[1] == "flush" for t in th):
                 th.append(("F1", "flush"))
         names = [t[0] for t in th]
@@ -495,6 +497,14 @@ CHECKS["C05"] = Spec(
     tools=["witness", "concdrive"],
     rule="see schedule_rule",
     extra=lambda ctx: _lin_check(ctx, False),
+)
+CHECKS["C06"] = Spec(
+    prop_file="C06.v",
+    weights=None,
+    witnesses=["F15-reader-removes-current-entry", "F16-relocation-vs-writer"],
+    tools=["witness", "concdrive"],
+    rule="see schedule_rule",
+    extra=lambda ctx: _lin_check(ctx, True),
 )
 CHECKS["C12"] = Spec(
     prop_file="C12.v",
